@@ -356,12 +356,14 @@ func (r *Runner) Step(st sim.Step) bool {
 		to, _ := w.Account(int(st.Int(0, 0)))
 		t := w.MakeTxn(TxnSpec{From: from, To: to, Type: transaction.TxnTypeSend,
 			Value: r.ResolveValue(VSmall, from), Fee: r.ResolveFee(0, from), Nonce: r.ResolveNonce(NExpected, from)})
-		nth, seen, fired := uint64(st.Int(1, 0)), uint64(0), false
+		// I[2]: number of consecutive reads that fail (1 = one-shot; a longer burst also fails the
+		// re-reads the node does to cross-check itself)
+		nth, span, seen, fired := uint64(st.Int(1, 0)), uint64(st.Int(2, 1)), uint64(0), false
 		w.Disk.SetFault(func(_ *grocksdb.Disk, op string, _ uint64) error {
-			if op != "get" || fired {
+			if op != "get" {
 				return nil
 			}
-			if seen++; seen > nth {
+			if seen++; seen > nth && seen <= nth+span {
 				fired = true
 				return grocksdb.ErrInjected
 			}
